@@ -323,6 +323,13 @@ Definition safe_ret (p : prog) : bool :=
   let A := analyze p in valid p A && no_cache_returned A.
 Definition safe (p : prog) : bool := safe_args p && safe_ret p.
 
+(* stronger: the result is neither held by a cache nor one of the argument buffers
+   (except at the listed argument positions) *)
+Definition ret_args_within (allowed : list nat) (A : abs) : bool :=
+  forallb (fun l => match l with LArg i => existsb (Nat.eqb i) allowed | _ => true end) (a_R A).
+Definition safe_ret_except (allowed : list nat) (p : prog) : bool :=
+  let A := analyze p in valid p A && no_cache_returned A && ret_args_within allowed A.
+
 (* methods called on an existing object (parameter 0 = self, the object seen as one region):
    no other argument is written, the result is not held by a module cache and is not (part
    of) the object itself *)
